@@ -373,3 +373,140 @@ pub fn run_mem(args: &Args) -> Report {
     rep.samples.push(J::obj().with("prog", prog).with("seed", seed).with("evaluations", rep.evaluations).with("calls", rep.calls));
     rep
 }
+
+
+// ---------------------------------------------------------------------------------------------
+// Metadata-size boundary grid (C18): exact-size buffers flush against guard pages for the frame
+// counts at which any of the three metadata sizes steps, and around the geometric boundaries
+
+/// Frame counts of this shard: steps of `LLFree::metadata_size` (as the code under test computes it),
+/// multiples of the huge-frame / tree / 16-tree sizes (+-1), and random counts, up to `max` frames
+fn size_grid(args: &Args, cfgs: &[Cfg], max: usize, rng: &mut Rng) -> Vec<usize> {
+    let mut v: std::collections::BTreeSet<usize> = std::collections::BTreeSet::new();
+    for cfg in cfgs {
+        let classing = cfg.classing();
+        let mut prev = LLFree::metadata_size(&classing, 0);
+        for f in 1..=max {
+            let ms = LLFree::metadata_size(&classing, f);
+            if ms.local != prev.local || ms.trees != prev.trees {
+                v.extend([f - 1, f, f + 1]);
+            }
+            // the lower size steps with every huge frame: take every step near tree boundaries, a sample elsewhere
+            if ms.lower != prev.lower {
+                v.extend([f - 1, f]);
+            }
+            prev = ms;
+        }
+    }
+    let mut k = TREE_FRAMES;
+    while k <= max {
+        v.extend([k - 1, k, k + 1]);
+        k += TREE_FRAMES;
+    }
+    let mut k = 16 * TREE_FRAMES;
+    while k <= max {
+        v.extend([k - HUGE_FRAMES, k + HUGE_FRAMES, k + TREE_FRAMES - 1, k + TREE_FRAMES + 1, k + 1 + rng.below(TREE_FRAMES - 1)]);
+        k += 16 * TREE_FRAMES;
+    }
+    for _ in 0..64 {
+        v.insert(1 + rng.below(max));
+    }
+    v.into_iter().filter(|f| *f >= 1 && *f <= max).enumerate().filter(|(i, _)| i % args.shards == args.shard).map(|(_, f)| f).collect()
+}
+
+pub fn run_sizes(args: &Args) -> Report {
+    let mut rep = Report::new("C18", "sizes");
+    let deadline = Instant::now() + Duration::from_millis(args.budget_ms);
+    let mut rng = Rng::new(args.seed.wrapping_mul(977).wrapping_add(args.shard as u64));
+    // up to 34 trees (two steps of the 16-entry cache line of tree entries)
+    let max = if cfg!(feature = "16K") || cfg!(miri) { 18 * TREE_FRAMES } else { 34 * TREE_FRAMES + HUGE_FRAMES };
+    let cfgs = [Cfg::by_name("simple", 1), Cfg::by_name("mixedslot2", 2), Cfg::by_name("zeroslot", 1)];
+    let mut grid = size_grid(args, &cfgs, max, &mut rng);
+    // largest first: the far boundaries are the ones no other workload reaches
+    grid.reverse();
+    let planned = grid.len();
+    let mut done = 0u64;
+    let mut i = 0usize;
+    loop {
+        if Instant::now() > deadline || (args.max_evals > 0 && done >= args.max_evals) {
+            break;
+        }
+        // the boundary grid with every classing, then random counts until the budget is used
+        let frames = if i / cfgs.len() < grid.len() { grid[i / cfgs.len()] } else { 1 + rng.below(max) };
+        i += 1;
+        let cfg = &cfgs[i % cfgs.len()];
+        let place = default_place(i as u64 + args.seed);
+        crate::bufs::set_scenario(2, frames as u64, i as u64);
+        let init = if i % 3 == 0 { Init::AllocAll } else { Init::FreeAll };
+        let mut s = match Sut::new(frames, init, cfg, place) {
+            Ok(s) => s,
+            Err(e) => {
+                viol(&mut rep, "C18", format!("construction frames={frames} {}: {e:?}", cfg.name));
+                continue;
+            }
+        };
+        let trees = frames.div_ceil(TREE_FRAMES);
+        let touch = |s: &Sut, rep: &mut Report, rng: &mut Rng| {
+            let a = s.a();
+            let _ = a.stats();
+            let _ = a.tree_stats();
+            let _ = catch(|| a.validate());
+            // the last frames / huge frame / tree, and the first
+            for f in [0usize, frames - 1, frames.saturating_sub(HUGE_FRAMES), (trees - 1) * TREE_FRAMES] {
+                let _ = a.stats_at(FrameId(f), 0);
+                let _ = a.stats_at(FrameId(f / HUGE_FRAMES * HUGE_FRAMES), HUGE_ORDER);
+                let _ = a.stats_at(FrameId(f / TREE_FRAMES * TREE_FRAMES), TREE_ORDER);
+                let _ = a.lower.is_free(FrameId(f), 0);
+            }
+            let _ = a.trees.stats_at(llfree::TreeId(trees - 1));
+            // calls that land in the last tree / last huge frame, through every slot of every class
+            for (c, n) in s.cfg.classes.clone() {
+                for slot in (0..n).map(Some).chain([None]) {
+                    for (f, o) in [(frames - 1, 0usize), ((trees - 1) * TREE_FRAMES, 0), (frames.saturating_sub(1) / HUGE_FRAMES * HUGE_FRAMES, 0)] {
+                        let req = s.cfg.request(o, c, slot);
+                        match a.get(Some(FrameId(f)), req) {
+                            Ok(_) => {
+                                let _ = a.put(FrameId(f), req);
+                            }
+                            Err(_) => {
+                                if a.put(FrameId(f), req).is_ok() {
+                                    let _ = a.get(Some(FrameId(f)), req);
+                                }
+                            }
+                        }
+                        rep.calls += 2;
+                    }
+                    let req = s.cfg.request(*rng.pick(&[0usize, 6, HUGE_ORDER]), c, slot);
+                    if let Ok((f, _)) = a.get(None, req) {
+                        let _ = a.put(f, req);
+                    }
+                    rep.calls += 2;
+                }
+            }
+            // tree changes naming the last tree, a drain
+            let m = llfree::TreeMatch { id: Some(llfree::TreeId(trees - 1)), class: None, free: 0 };
+            let _ = a.change_tree(m, llfree::TreeChange { class: Some(llfree::Class(s.cfg.classes[0].0)), operation: None });
+            a.drain();
+            let _ = a.tree_stats();
+        };
+        touch(&s, &mut rep, &mut rng);
+        for mode in [Init::None, Init::Recover] {
+            if let Err(e) = s.reinit(mode) {
+                viol(&mut rep, "C18", format!("re-initialisation {} with frames={frames}: {e:?}", crate::sut::init_name(mode)));
+                break;
+            }
+            touch(&s, &mut rep, &mut rng);
+        }
+        rep.evaluations += 1;
+        done += 1;
+        rep.states.insert(frames as u64 ^ ((i % cfgs.len()) as u64) << 40);
+        if rep.samples.len() < 3 {
+            let ms = LLFree::metadata_size(&cfg.classing(), frames);
+            rep.samples.push(J::obj().with("frames", frames).with("cfg", cfg.name).with("local_bytes", ms.local).with("trees_bytes", ms.trees).with("lower_bytes", ms.lower));
+        }
+    }
+    rep.add("size_grid_counts_planned", (planned * cfgs.len()) as u64);
+    rep.add("size_grid_counts_done", done.min((planned * cfgs.len()) as u64));
+    rep.add("random_counts_done", done.saturating_sub((planned * cfgs.len()) as u64));
+    rep
+}
